@@ -22,8 +22,11 @@ func SmartRedirectSlashes(next http.Handler) http.Handler {
 		rctx := chi.RouteContext(r.Context())
 		if rctx != nil {
 			var path string
+			// use the path chi routes on: the escaped path when there is one
 			if rctx.RoutePath != "" {
 				path = rctx.RoutePath
+			} else if r.URL.RawPath != "" {
+				path = r.URL.RawPath
 			} else {
 				path = r.URL.Path
 			}
